@@ -25,6 +25,10 @@ def run(ctx):
     for kinds, label in ((("plain",), "plain environment"), (("space",), "continuous worlds"), (("grid", "line", "grid2d"), "grid worlds")):
         runs = _world.random_runs(ctx, n, kinds=kinds, mods="clean", length=50, weights=W, n_ids=3, guests=True, late_install=True)
         _world.validate_runs(ctx, runs, f"random add/remove/lookup histories with colliding ids and injected errors, {label}")
+    # several residents carrying the same component types leave in every order: the listings keep the joining order of those who stay
+    from ..drivers import world as Wd
+    _world.validate_programs(ctx, Wd.carrier_programs(4) + Wd.carrier_programs(5, limit=30 if q else None, rng=ctx.rng),
+                             "4..5 carriers of the same component types join, then leave in every order, first leaver re-joins")
     if not q:
         from .. import suite
         suite.run(ctx, ["space", "pop"])
